@@ -34,15 +34,20 @@ def main():
         what = re.sub(r'^fixed: property=\S+ \S+ ', '', f['what']).replace('|', '\\|')
         out.append(f'| {f["id"]} | {f["status"]} | {what[:300]} |')
     out.append('\n### B.3 Seeded breaking changes (seeded/*/meta.json) and what the checks reported\n')
-    out.append('| seed | breaks (clause) | needs | quick check | reported as |')
-    out.append('|---|---|---|---|---|')
+    out.append('| seed | breaks (clause) | needs | quick check (latest run) | reported as | first run reported |')
+    out.append('|---|---|---|---|---|---|')
+
+    def kind_of(chk):
+        line = chk.get('violation_line', '')
+        return 'not caught' if not chk.get('caught') else ('no-failing-input-found' if 'no-failing-input-found' in line else 'concrete replay')
     for m in sorted(glob.glob(os.path.join(HERE, 'seeded', '*', 'meta.json'))):
         d = json.load(open(m))
         name = os.path.basename(os.path.dirname(m))
         chk = d.get('check', {})
         line = chk.get('violation_line', '')
-        kind = 'not caught' if not chk.get('caught') else ('no-failing-input-found' if 'no-failing-input-found' in line else 'concrete replay')
-        out.append(f'| {name} | {str(d.get("breaks"))[:160]} | {str(d.get("needs"))[:200]} | exit {chk.get("exit")} in {chk.get("seconds")} s | {kind} |')
+        kind = kind_of(chk)
+        first = kind_of(d['first_check']) if d.get('first_check') else kind
+        out.append(f'| {name} | {str(d.get("breaks"))[:160]} | {str(d.get("needs"))[:200]} | exit {chk.get("exit")} in {chk.get("seconds")} s | {kind} | {first} |')
     gen = '\n'.join(out) + '\n'
     path = os.path.join(HERE, 'DESIGN.md')
     s = open(path).read()
